@@ -189,6 +189,7 @@ class Env:
             p.set(bpf, "bpf", bpf_with_preemption)
         elif self.kernel is not None:
             p.set(bpf, "bpf", self.kernel.bpf)
+        if self.kernel is not None:
             p.set(arraymap, "mmap", self.kernel.mmap)
             p.set(arraymap, "cpu_count", lambda: self.online_cpus)
             if hasattr(arraymap, "possible_cpus"):
@@ -247,6 +248,7 @@ class Env:
             self.fs.yield_point = self.sched.yield_point
             self.fs.current_pid = self.sched.current_pid
             self.fs.block = self.sched.block_until
+            self.fs.mark_hot = self.sched.hot_pids.add
         return self.sched
 
     def _if_nametoindex(self, name):
